@@ -256,6 +256,32 @@ func vxSafeUnmarshal(info TypeInfo, b []byte, dst interface{}) (err error, pan i
 
 // ---------------------------------------------------------------------------------------------
 
+// vxNullInCollection: some list/set/map inside v holds a null element.
+func vxNullInCollection(ty *cqlspec.Type, v cqlspec.Value) bool {
+	if v.Null {
+		return false
+	}
+	switch ty.Kind {
+	case cqlspec.List, cqlspec.Set, cqlspec.Map:
+		for i, e := range v.Elems {
+			et := ty.Elems[0]
+			if ty.Kind == cqlspec.Map {
+				et = ty.Elems[i%2]
+			}
+			if e.Null || vxNullInCollection(et, e) {
+				return true
+			}
+		}
+	case cqlspec.Tuple, cqlspec.UDT:
+		for i, e := range v.Elems {
+			if i < len(ty.Elems) && vxNullInCollection(ty.Elems[i], e) {
+				return true
+			}
+		}
+	}
+	return false
+}
+
 func TestVxC02RoundTrip(t *testing.T) {
 	vx.Check(t, vx.Prop{
 		ID: "C02", Part: "TestVxC02RoundTrip",
@@ -264,9 +290,20 @@ func TestVxC02RoundTrip(t *testing.T) {
 		New:  func() interface{} { return &vxValCase{} },
 		Run: func(ci interface{}, k *vstats.Case) error {
 			c := ci.(*vxValCase)
-			if c.Proto < 1 || c.Proto > 5 || !vxValid(c.Type, c.Value) || !cqlspec.Encodable(c.Type, c.Value, c.Proto) {
+			if c.Proto < 1 || c.Proto > 5 || !vxValid(c.Type, c.Value) {
 				k.Class("invalid-case")
 				return nil
+			}
+			oversize := false
+			if !cqlspec.Encodable(c.Type, c.Value, c.Proto) {
+				if vxNullInCollection(c.Type, c.Value) {
+					k.Class("invalid-case") // the v1-2 framing has no null collection elements
+					return nil
+				}
+				// more than 65535 elements, or an element longer than 65535 bytes, in the 16-bit collection framing
+				// of protocol 1-2: "encoding either fails or ..." - it has to fail, the framing cannot say it
+				oversize = true
+				k.Class("too large for the v1-2 collection framing")
 			}
 			ch := &vxCh{c: c.Choices}
 			info := vxTypeInfo(c.Type, byte(c.Proto))
@@ -295,6 +332,9 @@ func TestVxC02RoundTrip(t *testing.T) {
 			if err != nil {
 				k.Class("marshal-refused")
 				return nil
+			}
+			if oversize {
+				return fmt.Errorf("Marshal(%v, %T) succeeded (%d bytes) for a value that the 16-bit collection framing of protocol %d cannot represent (an element count or element length above 65535)", c.Type, src, len(b), c.Proto)
 			}
 			// (1) same Go type
 			if srcT != nil {
